@@ -737,6 +737,110 @@ def rule_identifiers(ctx, ix):
 
 
 # ------------------------------------------------------------------------------------------------
+# 7b. literal spellings
+# ------------------------------------------------------------------------------------------------
+def exact_float_spelling(e) -> str | None:
+    """None if the expression spells a double exactly (round-trips through the C parser), else why."""
+    if isinstance(e, ast.Call) and isinstance(e.func, ast.Name) and e.func.id in ("str", "repr") and len(e.args) == 1:
+        return None  # shortest round-trip repr (David Gay / Python >= 3.1)
+    if isinstance(e, ast.Call) and isinstance(e.func, ast.Attribute) and e.func.attr in ("__repr__", "hex"):
+        return None
+    spec = None
+    if isinstance(e, ast.JoinedStr) and len(e.values) == 1 and isinstance(e.values[0], ast.FormattedValue):
+        fv = e.values[0]
+        if fv.conversion == 114 and fv.format_spec is None:  # !r
+            return None
+        if fv.format_spec is not None and all(isinstance(v, ast.Constant) for v in fv.format_spec.values):
+            spec = "".join(v.value for v in fv.format_spec.values)
+        elif fv.format_spec is None:
+            return None  # format(x, "") == str(x)
+    if isinstance(e, ast.Call) and isinstance(e.func, ast.Name) and e.func.id == "format" and len(e.args) == 2 and isinstance(e.args[1], ast.Constant):
+        spec = e.args[1].value
+    if isinstance(e, ast.BinOp) and isinstance(e.op, ast.Mod) and isinstance(e.left, ast.Constant) and isinstance(e.left.value, str):
+        spec = e.left.value.lstrip("%")
+    if spec is not None:
+        m = re.fullmatch(r"[-+ #0]*\d*\.(\d+)([eEgG])", spec)
+        if m:
+            digits = int(m.group(1)) + (1 if m.group(2) in "eE" else 0)
+            if digits >= 17:
+                return None
+            return f"format `{spec}` keeps {digits} significant digits; an IEEE double needs 17 to round-trip"
+        if spec in ("r", ""):
+            return None
+        return f"format `{spec}` does not spell every double exactly"
+    return f"`{ast.unparse(e)}` is not a recognised exact spelling of a double"
+
+
+def rule_literals(ctx, ix):
+    """The C printer's literal spellings denote exactly the IR value the LLVM printer embeds."""
+    ctx.rule("C06.literals", "C literal spellings denote exactly the value the LLVM module embeds", min_instances=5)
+    cimpl = registered_impl(ix, C_MOD, "ir_to_c_expression")
+    limpl = registered_impl(ix, L_MOD, "ir_to_llvm_expression")
+    for cls, kind in (("FloatLiteral", "float"), ("IntegerLiteral", "int"), ("BooleanLiteral", "bool")):
+        ctx.instance("C06.literals")
+        key = f"codegen/_ir_to_c.py:ir_to_c_expression:{cls}"
+        fn = cimpl.get(cls)
+        if fn is None:
+            ctx.fail("C06.literals", key, "no implementation")
+            continue
+        # resolve simple local aliases: x = expr; return x
+        local = {}
+        for st in fn.body:
+            if isinstance(st, ast.Assign) and isinstance(st.targets[0], ast.Name):
+                local[st.targets[0].id] = st.value
+        rets = [n for n in ast.walk(fn) if isinstance(n, ast.Return)]
+        problems = []
+        for r in rets:
+            v = r.value
+            while isinstance(v, ast.Name) and v.id in local:
+                v = local[v.id]
+            if kind == "float":
+                why = exact_float_spelling(v)
+                if why:
+                    problems.append(why)
+                elif "self.value" not in ast.unparse(v):
+                    problems.append("does not print self.value")
+            elif kind == "int":
+                if ast.unparse(v) not in ("str(self.value)", "repr(self.value)", "f'{self.value}'", "f'{self.value:d}'"):
+                    problems.append(f"integer literal printed as `{ast.unparse(v)}`")
+            else:
+                if ast.unparse(v) != "'true' if self.value else 'false'":
+                    problems.append(f"boolean literal printed as `{ast.unparse(v)}`")
+        if len(rets) > 1 and kind == "float":
+            problems.append("several return paths (value-dependent spelling)") if any(exact_float_spelling(r.value if not isinstance(r.value, ast.Name) else local.get(r.value.id, r.value)) for r in rets) else None
+        problems = [p for p in problems if p]
+        if problems:
+            ctx.fail("C06.literals", key, "; ".join(sorted(set(problems))) + " (the LLVM back end embeds the exact IR value)")
+        else:
+            ctx.ok("C06.literals", key)
+    # LLVM side embeds self.value unchanged with the right type
+    for cls, ty in (("FloatLiteral", "llvm_float_type"), ("IntegerLiteral", "llvm_integer_type"), ("BooleanLiteral", "llvm_boolean_type")):
+        ctx.instance("C06.literals")
+        key = f"codegen/_ir_to_llvm.py:ir_to_llvm_expression:{cls}"
+        fn = limpl.get(cls)
+        rets = [n for n in ast.walk(fn) if isinstance(n, ast.Return)] if fn else []
+        if len(rets) == 1 and ast.unparse(rets[0].value) == f"llvm.Constant({ty}, self.value)":
+            ctx.ok("C06.literals", key)
+        else:
+            ctx.fail("C06.literals", key, f"literal is not embedded as llvm.Constant({ty}, self.value)")
+    # sugar.Float / desugar / identifiable / to_ir pass the value through unchanged
+    for q, want in (
+        ("tensora.desugar._desugar_expression.desugar_float", "desugar.Float(self.value)"),
+        ("tensora.desugar._desugar_expression.desugar_integer", "desugar.Integer(self.value)"),
+        ("tensora.iteration_graph.identifiable_expression._to_ir.to_ir_float", "ir.FloatLiteral(self.value)"),
+        ("tensora.iteration_graph.identifiable_expression._to_ir.to_ir_integer", "ir.IntegerLiteral(self.value)"),
+    ):
+        ctx.instance("C06.literals")
+        fn = ix.func(q).node
+        rets = [n for n in ast.walk(fn) if isinstance(n, ast.Return)]
+        key = f"{q.split('tensora.', 1)[1]}"
+        if len(rets) == 1 and ast.unparse(rets[0].value) == want:
+            ctx.ok("C06.literals", key)
+        else:
+            ctx.fail("C06.literals", key, f"literal value is not passed through unchanged (`{want}`)")
+
+
+# ------------------------------------------------------------------------------------------------
 # 9. hoisting total
 # ------------------------------------------------------------------------------------------------
 def rule_hoisting(ctx, ix):
@@ -782,5 +886,6 @@ def run(ctx):
     rule_struct_layout(ctx, ix)
     rule_alloc_width(ctx, ix)
     rule_identifiers(ctx, ix)
+    rule_literals(ctx, ix)
     rule_hoisting(ctx, ix)
     return ix
